@@ -386,6 +386,38 @@ def tagmode_part(run, model, tm, rng, tier, have_model_t=True):
                         cl.append("ctagm %s %d %d %s %s" % (ref, mode, ltf, bs.hex(), sc))
                         ml.append("chainfeedm 0 %d %d %s %s %s" % (mode, ltf, ",".join(map(str, tags)) or "-", bs.hex(), sc))
                     run.count("tagmode_chain_inputs_mode%+d" % mode)
+    # ber_decode_primitive under a tag_mode (INTEGER referenced with 1 and 2 own tags) against ResumeT.primm_step
+    pcl, pml = [], []
+    for ref in ("PInt", "PInt2"):
+        tags = W.own_tags(tm["trees"][ref])
+        for mode in (1, 0, -1):
+            for label, bs in W.chain_inputs(tags, mode, 0, rng, quick):
+                n = len(bs)
+                if label[0] in "fw":
+                    scs = [str(n)] + [str(s) for s in range(1, n)] + ["1*", "2*"]
+                else:
+                    scs = [str(n), "1*", "%d" % rng.range(1, max(1, n - 1)), ",".join(map(str, U.schedules(rng, n, 1)[0]))]
+                for sc in scs:
+                    pcl.append("pdecm %s %d %s %s" % (ref, mode, bs.hex(), sc))
+                    pml.append("primfeedm %d %s %s %s" % (mode, ",".join(map(str, tags)), bs.hex(), sc))
+    pco = run_mod_par(run, tm, pcl, "C05-pdecm")
+    rcm, pmo, me = run_lines(model, pml, timeout=1200)
+    if rcm != 0 or len(pmo) != len(pml):
+        raise RuntimeError("model driver failed (primfeedm): %s %s" % (rcm, me))
+    pone = {}
+    for c_, m_, cr, mr in zip(pcl, pml, pco, pmo):
+        run.case(m_)
+        run.count("model_primfeedm")
+        f = c_.split()
+        key = tuple(f[1:4])
+        if f[4] == str(len(f[3]) // 2):
+            pone[key] = cr
+        if cr != mr:
+            run.violation("correspondence:ResumeT.primm_step", {"what": "ber_decode_primitive (tag_mode %s) fed in chunks and the extracted machine disagree: C %s, model %s" % (f[2], cr[:200], mr[:200]),
+                                                                "command_line": m_[:3000], "c_command": c_[:3000]}, no_input=(cr == pone.get(key)))
+        if key in pone and cr != pone[key] and cr != "CRASH":
+            run.violation("oracle:prim-restart(ber)", {"what": "ber_decode_primitive (tag_mode %s) fed %s: %s; one-shot: %s" % (f[2], f[4][:60], cr[:200], pone[key][:200]),
+                                                       "c_command": c_[:3000], "command_line": c_[:3000]})
     co = run_mod_par(run, tm, cl, "C05-ctagm")
     rcm, mo, me = run_lines(model, ml, timeout=1200)
     if rcm != 0 or len(mo) != len(ml):
